@@ -22,7 +22,7 @@ JUDGED = ["Sound", "AcceptEffect", "AcceptedMatchesReference", "RejectKeepsLedge
 INFRA = ["CaseRealised", "DescriptionWF"]
 DRIFT = ["ImplPrediction", "SameHashSameState"]
 DEVIATIONS = ["quirk_shortcut", "quirk_evict", "quirk_known", "bug_hdr", "bug_ts", "bug_pool"]
-QUICK_STATES = {"mid", "hdr_ahead", "pool_has", "epoch", "fresh"}
+QUICK_STATES = {"mid", "hdr_ahead", "pool_has", "epoch", "fresh", "hdr_ahead_badroot", "hdr_ahead_badroot2"}
 
 
 def expect_model_error(ctx, cfg):
@@ -76,7 +76,7 @@ def run(ctx):
         expect_model_error(ctx, "MC_Accept_%s.cfg" % d)
     ctx.extra["constants"] = {"AcceptImpl": "MaxH=%d accepted blocks, <=2 headers ahead, pool subsets of {t,u}, ALL well-formed offer "
                                             "descriptions (5 idx x 3 ts x 6 txdef x 3 hid x 2^7 flags) in every state" % (1 if q else 2),
-                              "AcceptCases": "8 chain-state kinds x SRIH x VT x {block,header} x 49 kinds x {raw,resealed} (applicable ones)"}
+                              "AcceptCases": "9 chain-state kinds x SRIH x VT x {block,header} x 52 kinds x {raw,resealed} (applicable ones)"}
     ctx.extra["exhaustive"] = True
     # ---------------------------------------------------------------- 2. case table with specified / predicted outcome
     rows = ctx.tlc_dump("accept", "AcceptCases.tla", "Cases_full.cfg", timeout=600)
